@@ -29,6 +29,8 @@ FONT_BASE = 3            # fonts F1..F4 are objects 3..6 in every document
 PAGE_BASE = 10           # page i: contents 10+3i (and 11+3i), page object 12+3i
 AUX_BASE = 40            # font k aux objects 40+10k ..
 FORM_BASE = 100          # form XObjects 100, 101, ...
+DAMAGED = 149            # a Flate stream cut short (tolerated: what can be inflated is used)
+DANG_A, DANG_B = 150, 151  # references that resolve to nothing: no xref entry / compressed entry past the stream's /N
 
 BASE_ENCODINGS = ["StandardEncoding", "MacRomanEncoding", "WinAnsiEncoding", "PDFDocEncoding"]
 # unknown base name: EncodingDB falls back to std2unicode
@@ -189,12 +191,13 @@ def encrypt_tree(o: Any, k: bytes) -> Any:
     return o
 
 
-def build_objstm_pdf(objs: Dict[int, Any], root: int, in_stream: List[int]) -> bytes:
-    """One revision; `in_stream` objects live in one object stream; cross-reference stream."""
+def build_objstm_pdf(objs: Dict[int, Any], root: int, in_stream: List[int], dangling: List[int] = ()) -> bytes:
+    """One revision; `in_stream` objects live in one object stream; cross-reference stream.
+    `dangling` object numbers get a compressed (type 2) entry whose index the stream does not have."""
     import io
     out = io.BytesIO()
     out.write(b"%PDF-1.7\n")
-    sid = max(objs) + 1
+    sid = max(list(objs) + list(dangling)) + 1
     xid = sid + 1
     bodies = []
     head = []
@@ -224,6 +227,8 @@ def build_objstm_pdf(objs: Dict[int, Any], root: int, in_stream: List[int]) -> b
             rows += struct.pack(">BIH", 1, offs[n], 0)
         elif n in in_stream:
             rows += struct.pack(">BIH", 2, sid, in_stream.index(n))
+        elif n in dangling:
+            rows += struct.pack(">BIH", 2, sid, len(in_stream) + 3 + list(dangling).index(n))
         else:
             rows += struct.pack(">BIH", 0, 0, 65535)
     xobj = Stream({"Type": "XRef", "Size": xid + 1, "W": [1, 4, 2], "Root": Ref(root)}, bytes(rows))
@@ -519,6 +524,7 @@ class Doc:
         self.features: List[str] = []
         self.plan_seen: List[str] = []
         self.bulk = False
+        self.dangling_in_stream: List[int] = []
 
 
 def content_names(b: bytes) -> List[str]:
@@ -613,6 +619,14 @@ def gen_doc(rng, idx: int, plan: Optional[Plan] = None) -> Doc:
     direct_fd = gen_font(rng, mk_alloc(5), plan, "simple")
     objs.update(direct_fd.aux)
 
+    # physical form first: it decides which kinds of dangling references exist
+    form = rng.choice(["plain", "plain", "objstm", "objstm", "rc4"])
+    # the font the interpreter falls back to for a name the page does not define / a reference to nothing
+    undef_fd = FontDesc()
+    undef_fd.kind = "type1"
+    d.fonts[DANG_A] = undef_fd
+    d.fonts[DANG_B] = undef_fd
+
     def font_resources(choice: List[int], with_direct: bool) -> Tuple[Dict[str, Any], List[Tuple[str, int, FontDesc]]]:
         # resource names are F1.. in *shuffled* assignment: /F1 is a different font per page/document
         res: Dict[str, Any] = {}
@@ -623,6 +637,12 @@ def gen_doc(rng, idx: int, plan: Optional[Plan] = None) -> Doc:
         if with_direct:
             res["F9"] = direct_fd.obj
             table.append(("F9", 0, direct_fd))
+        # font entries that refer to nothing (get_font builds the fallback font under that object id)
+        res["Fd"] = Ref(DANG_A)
+        table.append(("Fd", DANG_A, undef_fd))
+        if form == "objstm":
+            res["Fe"] = Ref(DANG_B)
+            table.append(("Fe", DANG_B, undef_fd))
         return res, table
 
     res_mode = rng.choice(["own", "own", "shared", "inherited"])
@@ -672,9 +692,6 @@ def gen_doc(rng, idx: int, plan: Optional[Plan] = None) -> Doc:
     kids = []
     line_no = 0
     used_form_nested = False
-    # the font the interpreter falls back to for a resource name the page does not define: get_font(None, {})
-    undef_fd = FontDesc()
-    undef_fd.kind = "type1"
     prev_font_names: List[str] = []
     prev_xobj_names: List[str] = []
     for i in range(d.npages):
@@ -750,7 +767,7 @@ def gen_doc(rng, idx: int, plan: Optional[Plan] = None) -> Doc:
         # names that only the PREVIOUS page defines: fontmap / xobjmap / csmap are per page
         here = [nm_ for nm_, _, _ in table]
         for nm_ in prev_font_names:
-            if nm_ not in here and nm_ != "F9":
+            if nm_ not in here and nm_ not in ("F9", "Fd", "Fe"):
                 s_ = bytes(rng.choice(range(65, 91)) for _ in range(3))
                 cur += b"BT /%s 10 Tf 300.5 %s Td %s Tj ET\n" % (nm_.encode(), W.ser_real(775.25 - 3 * i), W.ser_string(s_))
                 pfonts.append(("undef:" + nm_, 0, undef_fd))
@@ -761,6 +778,11 @@ def gen_doc(rng, idx: int, plan: Optional[Plan] = None) -> Doc:
         if not xobjs and prev_xobj_names:
             cur += b"q 1 0 0 1 200 400 cm /%s Do Q\n" % prev_xobj_names[0].encode()
             d.features.append("probe:xobject-of-previous-page")
+        if rng.random() < 0.3:
+            xobjs["Fm8"] = Ref(DANG_B if form == "objstm" and rng.random() < 0.5 else DANG_A)
+            cur += b"/Fm8 Do\n"
+            page_reads.append(xobjs["Fm8"].n)
+            d.features.append("dangling:xobject")
         prev_font_names, prev_xobj_names = here, sorted(xobjs)
         cur += suf_b
         parts.append(bytes(cur))
@@ -769,6 +791,10 @@ def gen_doc(rng, idx: int, plan: Optional[Plan] = None) -> Doc:
         page: Dict[str, Any] = {"Type": "Page", "Parent": Ref(PAGES), "MediaBox": [0, 0, 612, 792]}
         if rng.random() < 0.2:
             page["Rotate"] = rng.choice([90, 180, 270])
+        elif rng.random() < 0.3:
+            page["Rotate"] = Ref(DANG_B if form == "objstm" else DANG_A)     # resolves to nothing: 0
+            walk.append(page["Rotate"].n)
+            d.features.append("dangling:rotate")
         def cstream(data: bytes) -> Stream:
             if flate:
                 return Stream({"Filter": "FlateDecode"}, zlib.compress(data))
@@ -779,6 +805,17 @@ def gen_doc(rng, idx: int, plan: Optional[Plan] = None) -> Doc:
             walk.append(cnum)             # PDFPage.__init__ resolves a single /Contents reference
         else:
             refs = [Ref(SHARED_CONTENT)] if shared_prefix else []
+            if rng.random() < 0.5:
+                refs.insert(0, Ref(DANG_A))         # a /Contents element that refers to nothing
+                d.features.append("dangling:contents")
+            if rng.random() < 0.5:
+                # a damaged (truncated Flate) content stream shared by the pages: decoded on the first
+                # use (error path), the cached stream object is used again by later pages
+                if DAMAGED not in objs:
+                    z = zlib.compress(b"% damaged stream\n0.7 g\n" * 30)
+                    objs[DAMAGED] = Stream({"Filter": "FlateDecode"}, z[:len(z) - 7])
+                refs.insert(0, Ref(DAMAGED))
+                d.features.append("damaged:contents")
             for j, part in enumerate(parts):
                 objs[cnum + j] = cstream(part)
                 refs.append(Ref(cnum + j))
@@ -812,13 +849,13 @@ def gen_doc(rng, idx: int, plan: Optional[Plan] = None) -> Doc:
     d.all_objnums = sorted(objs)
 
     # physical form
-    form = rng.choice(["plain", "plain", "objstm", "rc4"])
     d.features.append("phys:" + form)
     if form == "objstm":
         cand = [n for n, o in objs.items() if not isinstance(o, Stream)]
         d.objstm = sorted(rng.sample(cand, max(1, len(cand) * 2 // 3)))
-        d.objstm_id = max(objs) + 1
-        d.data = build_objstm_pdf(objs, CATALOG, d.objstm)
+        d.dangling_in_stream = [DANG_B]
+        d.objstm_id = max(list(objs) + d.dangling_in_stream) + 1
+        d.data = build_objstm_pdf(objs, CATALOG, d.objstm, d.dangling_in_stream)
     elif form == "rc4":
         d.encrypted = True
         d.user = rng.choice(["", "", "u%d" % idx])
